@@ -89,6 +89,12 @@ CHECKS = {
    design="5 (C18), 4.9",
    note="type fields, effect rows, GADT-style constructors and operator names are not generated; comparison is by an s-expression over Type<Id, T>",
    technique="TLC check of printer/recogniser round trip (TypeSyntax.tla) + replay of every enumerated type through the real printer and parser at several widths"),
+ "C14": dict(
+   level="model_checking",
+   text="Locks.tla gives the acquire / release sequence of each public operation (run, collect with mark_child_roots, push of a rooted value, new_thread, import) and TLC reports cyclic waits: the sibling-thread scenario is free of them, the parent-collection vs push-onto-child scenario has one (reproduced on the VM). ModulesPar.tla: racing requesters evaluate every module body at most once and everyone is served (TLC incl. liveness). Binding: stress rounds with 2-16 OS threads each compiling and running programs on its own child thread of one VM (overlapping imports of tick-reporting modules, allocation, channels, maps, lazies; gc forced at every 1st / 3rd allocation check in part of the rounds, freed blocks poisoned): results must equal the solo results, every module body runs at most once, nothing freed is reachable afterwards; hangs / crashes count when they reproduce.",
+   design="5 (C14), 4.6",
+   note="OS-thread interleavings are sampled, not enumerated (the sync-point hooks H9 of the design were not built); verdicts about hangs and crashes require reproduction with the same programs",
+   technique="TLC model checking of Locks.tla and ModulesPar.tla + randomized parallel stress compared with solo runs (spec-predicted deadlock scenario replayed under a watchdog)"),
 }
 NOT_BUILT = "check not built yet (work in progress; see DESIGN.md section 5)"
 NA = {}
